@@ -240,5 +240,54 @@ theorem omegaBisect_complete (omega qaz theta : ℝ) (N : M3 ℝ) (hN : N.a00 ^ 
   · rw [h1]; exact hmS
   · rw [h2]; exact heS
 
+/-- **completeness of `__calc_sample_con_mu_bisect`** (omega free): a position with the constrained mu that satisfies the sample relation and the
+    bisect relation for SOME value of θ+ω is returned modulo 2π (generic branch: `cos qaz` not small, `cos(θ+ω) ≠ 0`, no ±90° shortcut for eta) -/
+theorem muBisect_complete (mu qaz theta : ℝ) (N : M3 ℝ) (hN : N.a00 ^ 2 + N.a10 ^ 2 + N.a20 ^ 2 = 1)
+    (eta0 chi0 phi0 thomega0 : ℝ) (hS : SampleSpec ⟨N.a00, N.a10, N.a20⟩ theta qaz (mu, eta0, chi0, phi0))
+    (hBm : Real.tan mu = Real.tan thomega0 * Real.cos qaz) (hBe : Real.sin eta0 = Real.sin thomega0 * Real.sin qaz)
+    (hct : Real.cos thomega0 ≠ 0) (hcq : Scalar.isSmall (Real.cos qaz) = false)
+    (hgen : ∀ th, SameAngle th thomega0 → Scalar.isSmall (|Real.arcsin (Real.sin th * Real.sin qaz)| - Real.pi / 2) = false)
+    (hsm : (Scalar.isSmall N.a00 && Scalar.isSmall N.a10) = false)
+    (hreg : (outerInv mu eta0 (qDir theta qaz)).x ^ 2 + (outerInv mu eta0 (qDir theta qaz)).z ^ 2 ≠ 0) :
+    ∃ l, sampleConMuBisect mu qaz theta N = .ok l ∧
+      ∃ t ∈ l, t.1 = mu ∧ SameAngle t.2.1 eta0 ∧ SameAngle t.2.2.1 chi0 ∧ SameAngle t.2.2.2 phi0 := by
+  have hcqne : Real.cos qaz ≠ 0 := C01.not_small_ne_zero hcq
+  unfold sampleConMuBisect
+  simp only [rs_tan, rs_cos, rs_sin, rs_atan, rs_asin, rs_pi, rs_two, rs_abs, hcq, Bool.false_eq_true, if_false]
+  set x := Real.tan mu / Real.cos qaz with hx
+  have htx : Real.tan thomega0 = x := by rw [hx, hBm]; field_simp
+  -- thomega0 is one of the two roots
+  obtain ⟨th, hth, hthS⟩ : ∃ th, th ∈ [Real.arctan x, Real.pi + Real.arctan x] ∧ SameAngle th thomega0 := by
+    rcases atan_roots_complete thomega0 x hct htx with h | h
+    · exact ⟨_, by simp, sameAngle_symm h⟩
+    · exact ⟨Real.pi + Real.arctan x, by simp, by rw [add_comm]; exact sameAngle_symm h⟩
+  have hg := hgen th hthS
+  have hyabs : |Real.sin th * Real.sin qaz| ≤ 1 := by
+    rw [abs_mul]; exact mul_le_one₀ (Real.abs_sin_le_one _) (abs_nonneg _) (Real.abs_sin_le_one _)
+  obtain ⟨e, he, heS⟩ : ∃ e, e ∈ [Real.arcsin (Real.sin th * Real.sin qaz), Real.pi - Real.arcsin (Real.sin th * Real.sin qaz)] ∧ SameAngle e eta0 := by
+    rcases asin_roots_complete eta0 (Real.sin th * Real.sin qaz) hyabs (by rw [hBe, hthS.1]) with h | h
+    · exact ⟨_, by simp, sameAngle_symm h⟩
+    · exact ⟨_, by simp, sameAngle_symm h⟩
+  set evals := [Real.arctan x, Real.pi + Real.arctan x].flatMap fun thomega =>
+      if Scalar.isSmall (|Real.arcsin (Real.sin thomega * Real.sin qaz)| - Real.pi / 2) = true
+      then [Scalar.sign (Real.arcsin (Real.sin thomega * Real.sin qaz)) * Real.pi / 2]
+      else [Real.arcsin (Real.sin thomega * Real.sin qaz), Real.pi - Real.arcsin (Real.sin thomega * Real.sin qaz)] with hevals
+  have hmemE : e ∈ evals := by
+    rw [hevals]
+    refine List.mem_flatMap.mpr ⟨th, hth, ?_⟩
+    rw [hg]; simpa using he
+  obtain ⟨l, hl, hmem⟩ := forM'_complete evals (fun e => sampleConMuEta mu e qaz theta N) (fun e _ => sampleConMuEta_total mu e qaz theta N hsm)
+  refine ⟨l, hl, ?_⟩
+  have hS' : SampleSpec ⟨N.a00, N.a10, N.a20⟩ theta qaz (mu, e, chi0, phi0) := by
+    unfold SampleSpec at hS ⊢
+    simp only [] at hS ⊢
+    rw [Z_congr mu mu e eta0 chi0 phi0 ⟨rfl, rfl⟩ heS]; exact hS
+  have hreg' : (outerInv mu e (qDir theta qaz)).x ^ 2 + (outerInv mu e (qDir theta qaz)).z ^ 2 ≠ 0 := by
+    rw [outerInv_comps] at hreg ⊢
+    simp only [] at hreg ⊢
+    rw [heS.1, heS.2]; exact hreg
+  obtain ⟨lx, hlx, t, ht, h1, h2, h3, h4⟩ := sampleConMuEta_complete mu e qaz theta N hN chi0 phi0 hS' hsm hreg'
+  exact ⟨t, hmem e hmemE lx hlx t ht, h1, by rw [h2]; exact heS, h3, h4⟩
+
 end
 end C03
